@@ -242,6 +242,9 @@ def _row_id_ok(fi, idx, feats, guards):
                 if True:
                     if Xsrc[0] == "param" and Xsrc[1].startswith("X"):
                         Ip = ("param", "I" + Xsrc[1][1:])
+                        own = [q for q in fi.params if q != "self"]
+                        if Ip[1] not in own and fi.name == "_build" and len(own) >= 3 and own[0] == Xsrc[1]:
+                            Ip = ("param", own[2])  # the index parameter of _build under another name (`indexes`)
                         given = ("cmp", "is not", Ip, ("const", None))
                         has_arr = has_guard(ev.guards, given)
                         no_arr = has_guard(ev.guards, mk_not(given))
@@ -310,11 +313,12 @@ def check_constructor_forwarding(rep, repo):
     builds = [e for e in w.events if e.kind == "call" and e.name == "_build" and e.target == ("attr", ("self",), "_build")]
     bfi = repo.need_method("Subgraph", "_build")
     names = bfi.params[1:]
+    ikey = "I" if "I" in names else (names[2] if len(names) >= 3 else "I")  # (the index parameter of _build, whatever its name)
     for e in builds:
         args = dict(zip(names, e.args))
         args.update(dict(e.kwargs))
-        rep.ev("ID-forward", e, args.get("I") == ("param", "I"),
-               f"Subgraph.__init__ must pass its index array I to _build on every path; got '{show(args['I']) if 'I' in args else 'nothing'}' "
+        rep.ev("ID-forward", e, args.get(ikey) == ("param", "I"),
+               f"Subgraph.__init__ must pass its index array I to _build on every path; got '{show(args[ikey]) if ikey in args else 'nothing'}' "
                "(the nodes silently get their positions as row ids)")
     rep.fn("ID-forward-present", fi, "Subgraph.__init__ builds its nodes through _build", len(builds) >= 1,
            "no call of self._build in the constructor")
